@@ -10,6 +10,7 @@ import (
 	"math/rand"
 	"path/filepath"
 	"regexp"
+	"sort"
 	"strconv"
 	"strings"
 	"time"
@@ -267,6 +268,111 @@ func checkC13(e *Env, r *Report) {
 		ab, _ := json.Marshal([]any{after.Outcome, after.RVars, after.RAtts})
 		recs = append(recs, map[string]any{"ev": "hist", "id": fmt.Sprintf("history|probe%d", pi), "a": string(bb), "b": string(ab)})
 		nRun += 2 + len(disturb)
+	}
+	// the built-in table: every variable of DefaultTunables takes an append like a variable of the file does, and
+	// may not be defined a second time (variables other built-ins refer to are left out: their expansions multiply)
+	{
+		defs := aa.DefaultTunables().Preamble.GetVariables()
+		referenced := map[string]bool{}
+		for _, v := range defs {
+			for _, val := range v.Values {
+				for _, w := range defs {
+					if strings.Contains(val, "@{"+w.Name+"}") {
+						referenced[w.Name] = true
+					}
+				}
+			}
+		}
+		set := func(xs []string) []string {
+			m := map[string]bool{}
+			for _, x := range xs {
+				m[x] = true
+			}
+			out := []string{}
+			for x := range m {
+				out = append(out, x)
+			}
+			sort.Strings(out)
+			return out
+		}
+		nDef := 0
+		for _, v := range defs {
+			if referenced[v.Name] || v.Name == "exec_path" {
+				continue
+			}
+			use := "@{exec_path} = @{" + v.Name + "}/x\nprofile p @{exec_path} {\n}\n"
+			base := realResolve(use, true)
+			if base.Outcome != "ok" {
+				continue
+			}
+			app := realResolve("@{"+v.Name+"} += /seeded\n"+use, true)
+			got := set(app.RAtts)
+			if app.Outcome != "ok" {
+				got = []string{"<" + app.Outcome + ": " + app.Err + ">"}
+			}
+			recs = append(recs, map[string]any{"ev": "expect", "id": "defaults|append|" + v.Name, "what": "a value appended to a built-in variable does not reach the attachment that uses the variable (or something else changes)",
+				"want": set(append(append([]string{}, base.RAtts...), "/seeded/x")), "got": got})
+			red := realResolve("@{"+v.Name+"} = /seeded\n"+use, true)
+			recs = append(recs, map[string]any{"ev": "expect", "id": "defaults|redefine|" + v.Name, "what": "a second definition of a built-in variable is not reported as an error",
+				"want": []string{"error"}, "got": []string{red.Outcome}})
+			nRun += 3
+			nDef++
+		}
+		r.Coverage["builtin_variables_appended_and_redefined"] = nDef
+	}
+	// several profiles in one file (built through the library): each one's attachments are resolved as if it were alone
+	{
+		mkFile := func() *aa.AppArmorProfileFile {
+			f := &aa.AppArmorProfileFile{}
+			_, _ = f.Parse("@{name} = gamma\n@{bin} = /{,usr/}bin\n@{exec_path} = @{bin}/main-@{name}\nprofile main @{exec_path} {\n}\n")
+			return f
+		}
+		alone := func(att []string) []string {
+			f := mkFile()
+			f.Profiles = []*aa.Profile{{Header: aa.Header{Name: "solo", Attachments: append([]string{}, att...)}}}
+			if err := f.Resolve(); err != nil {
+				return []string{"<error: " + err.Error() + ">"}
+			}
+			return append([]string{}, f.Profiles[0].Attachments...)
+		}
+		shapes := [][][]string{
+			{nil, {"@{exec_path}"}, {"@{bin}/other-@{name}"}},
+			{{"@{exec_path}"}, nil, {"@{bin}/other-@{name}"}},
+			{{}, {"@{bin}/a"}, {}, {"@{exec_path}", "@{bin}/b-@{name}"}},
+			{{"/literal"}, {"@{exec_path}"}},
+		}
+		for si, sh := range shapes {
+			f := mkFile()
+			f.Profiles = nil
+			for pi, att := range sh {
+				var a []string
+				if att != nil {
+					a = append([]string{}, att...)
+				}
+				f.Profiles = append(f.Profiles, &aa.Profile{Header: aa.Header{Name: fmt.Sprintf("p%d", pi), Attachments: a}})
+			}
+			var rerr error
+			func() {
+				defer func() {
+					if p := recover(); p != nil {
+						rerr = fmt.Errorf("panic: %v", p)
+					}
+				}()
+				rerr = f.Resolve()
+			}()
+			for pi, att := range sh {
+				want := alone(att)
+				got := []string{}
+				if rerr != nil {
+					got = []string{"<error: " + rerr.Error() + ">"}
+				} else {
+					got = append(got, f.Profiles[pi].Attachments...)
+				}
+				recs = append(recs, map[string]any{"ev": "expect", "id": fmt.Sprintf("multiprofile|shape%d|p%d", si, pi), "what": "the attachments of a profile are resolved differently when other profiles stand in the same file",
+					"want": want, "got": got})
+			}
+			nRun++
+		}
 	}
 	r.Coverage["real_resolve_runs"] = nRun
 	r.Coverage["not_judged_out_of_contract"] = nSkipped
